@@ -390,9 +390,23 @@ def retime(index, rep):
 
     rets_r = [r for r in walk_no_nested(fn) if isinstance(r, ast.Return) and r.value is not None and not (isinstance(r.value, ast.Constant) and r.value.value is None)]
     ret_terms = summands(rets_r[-1].value) if rets_r else None
+
+    def linear_form(e):
+        """the expression as a rational form over the parameters and the results of the calls in it (copy-propagated first)"""
+        it_l = Interp()
+        it_l.opaque_calls = True
+        env_l = {a_.arg: Rat.atom((a_.arg,)) for a_ in fn.args.args}
+        env_l[fn.args.args[0].arg] = Obj(None, {}, "self")
+        try:
+            return it_l.to_rat(it_l.eval(inl_r.expr(e), env_l))
+        except Exception:
+            return None
+
+    ret_form = linear_form(rets_r[-1].value) if rets_r else None
     rep.check(any(k == "upper" and 0 <= v <= 0.001 and "abs(" in norm_src(e_) and ".sum()" in norm_src(e_) for k, e_, v, strict in all_bounds), rule,
               "assert:total-preserved", "the assertion that the adjustment sums to zero (total meat preserved) is gone", loc=loc(PARAMS, fn))
-    rep.check(ret_terms is not None and any(k == "lower" and -0.001 <= v <= 0 and summands(e_) == ret_terms for k, e_, v, strict in all_bounds), rule,
+    rep.check(ret_terms is not None and any(k == "lower" and -0.001 <= v <= 0 and (summands(e_) == ret_terms or (
+        ret_form is not None and linear_form(e_) is not None and linear_form(e_) == ret_form)) for k, e_, v, strict in all_bounds), rule,
               "assert:result-non-negative", "the assertion that the re-timed meat is non-negative is gone", loc=loc(PARAMS, fn))
     # the None path is the 'less meat with feed' case: only when sum(round1) > sum(round2)
     rep.check(len(nulls) >= 1, rule, "skip-path-exists", "no path skips round 2 when feeding yields less meat", loc=loc(PARAMS, fn))
